@@ -4,7 +4,7 @@
 (* of C01/C03 (well-formed, line-safe), restorer discipline, C05, C06,     *)
 (* C11, C15, C17.                                                          *)
 (***************************************************************************)
-EXTENDS PSlices
+EXTENDS PSpec
 
 (***************************************************************************)
 (* The STATEMENT-level classification, independent of modes, overrides     *)
@@ -22,7 +22,7 @@ Ctxs(t, inh, ro) ==
                     [] t.k = "sstr" /\ ~ro -> "safe"
                     [] OTHER -> "none"
       kids == IF t.k = "struct" THEN UNION {Ctxs(t.xs[i], own, ro \/ t.ro[i]) : i \in 1..Len(t.xs)}
-              ELSE UNION {Ctxs(t.xs[i], own, ro) : i \in 1..Len(t.xs)}
+              ELSE UNION {Ctxs(t.xs[i], own, ro \/ t.k = "rvaluero") : i \in 1..Len(t.xs)}
   IN {<<t.id, own>>} \cup kids
 
 RECURSIVE SubTerms(_)
